@@ -109,6 +109,7 @@ def parseCase (body : List String) : CaseObs :=
       | "done" :: _ => { p.flushRound with c := { p.flushRound.c with done := true } }
       | "crash" :: rest => { p with c := { p.c with crash := some (" ".intercalate rest) } }
       | "badcase" :: rest => { p with c := { p.c with bad := some (" ".intercalate rest) } }
+      | "toolong" :: rest => { p with c := { p.c with bad := some ("call trace longer than the enumerated fault positions: " ++ " ".intercalate rest) } }
       | _ =>
         match parseItem w with
         | none => p
